@@ -104,6 +104,22 @@ func ociFacts(lf *leanFile) {
 		})
 	}
 	lf.def("deleteSkipsAbsent", "Bool", checks)
+	// resolver.Memory.Tag: when a reference moves to other content, is it removed from the
+	// tag set of the content it used to point to?
+	drops := "false"
+	if fd := funcDecl("internal/resolver/memory.go", "Memory", "Tag"); fd != nil {
+		ast.Inspect(fd.Body, func(n ast.Node) bool {
+			if c, ok := n.(*ast.CallExpr); ok {
+				if sel, ok := c.Fun.(*ast.SelectorExpr); ok && sel.Sel.Name == "Delete" && len(c.Args) == 1 && exprString(c.Args[0]) == "reference" {
+					drops = "true"
+				}
+			}
+			return true
+		})
+	} else {
+		miss("internal/resolver/memory.go:Memory.Tag")
+	}
+	lf.def("tagDropsStale", "Bool", drops)
 	lf.def("ociCalls", "List (String × List String)", "["+strings.Join([]string{
 		callList("content/oci/oci.go", "Store", "Delete"),
 		callList("content/oci/oci.go", "Store", "delete"),
